@@ -23,6 +23,18 @@ WeakInvolution == (step >= 1 /\ step <= 4) =>
 SemiWeakPairs == (step >= 5 /\ step <= 16 /\ step % 2 = 1) =>
     Encipher(KS(DesWeakRaw[step]), Encipher(KS(DesWeakRaw[step + 1]), Probe)) = Probe
 AllDifferent == Cardinality(DesWeakSet) = 64
+\* the complementation property that Catalogue!Class / Flipped rely on holds in the L2 specification (C05):
+\* DES(~k, ~p) = ~DES(k, p), checked on the table entries and their one-bit neighbours as sample keys
+Compl(b) == [j \in 1..Len(b) |-> 255 - b[j]]
+Complementation == step >= 1 =>
+    LET k == [DesWeakRaw[step] EXCEPT ![3] = (DesWeakRaw[step][3] + 37 * step) % 256, ![6] = (DesWeakRaw[step][6] + 11 * step) % 256]
+    IN /\ Encipher(KS(Compl(k)), Compl(Probe)) = Compl(Encipher(KS(k), Probe))
+       /\ Decipher(KS(Compl(k)), Compl(Probe)) = Compl(Decipher(KS(k), Probe))
+\* parity bits are ignored by the key schedule
+ParityIgnored == step >= 1 =>
+    LET k == DesWeakRaw[step]
+        kp == [j \in 1..8 |-> IF k[j] % 2 = 0 THEN k[j] + 1 ELSE k[j] - 1]
+    IN KS(k) = KS(kp)
 \* flipping one key bit of a listed key leaves the table (the driver relies on these passing)
 NeighbourNotWeak == step >= 1 =>
     LET k == DesWeakRaw[step]
